@@ -110,7 +110,11 @@ fn build_server(obs: &Arc<Obs>, reg: &PeerRegistry) -> WebSocketServer {
     static BUILDS: AtomicU64 = AtomicU64::new(0);
     let outcap = [256usize, 2, 1][(BUILDS.fetch_add(1, Ordering::SeqCst) % 3) as usize];
     let (o6, reg6) = (obs.clone(), reg.clone());
-    WebSocketServer::new(router)
+    // the off-reader cap is varied as well: the default (16), none (0 = uncapped) and 1
+    let n_build = BUILDS.load(Ordering::SeqCst);
+    let base = WebSocketServer::new(router);
+    let base = match (n_build / 3) % 3 { 0 => base, 1 => base.with_offreader_limit(0), _ => base.with_offreader_limit(1) };
+    base
         .with_outbound_capacity(outcap)
         // registered BEFORE the registry is attached: it runs first and must still find the peer and its aliases
         .on_peer_disconnect(move |id| { if reg6.get(id).is_none() || reg6.aliases_for(id).is_empty() { o6.missing_in_hook.store(true, Ordering::SeqCst); } })
